@@ -191,7 +191,10 @@ class _Quadrature(torch.autograd.Function):
                 dfdts = torch.autograd.grad(f, tensor_params,
                                             grad_outputs=grad_ys,
                                             retain_graph=True,
-                                            create_graph=torch.is_grad_enabled())
+                                            create_graph=torch.is_grad_enabled(),
+                                            allow_unused=True)
+                dfdts = tuple(torch.zeros_like(p) if dfdt is None else dfdt
+                              for (dfdt, p) in zip(dfdts, tensor_params))
                 return dfdts
 
             # reconstruct grad_params
